@@ -114,11 +114,13 @@ class Interleaved(world.ScriptedApi):
             for _ in range(self.rnd.randrange(0, 4)):
                 await asyncio.sleep(0)
                 if self.rnd.random() < .4: self.trav.shift(self.rnd.choice([1, 2, 61]))
-            return self.script.pop(0) if self.script else b""
+            if not self.pending: self.pending = self.script.pop(0) if self.script else b""
+            out, self.pending = self.pending[:n], self.pending[n:]
+            return out
         self.api._reader.read = read
 
     async def run_unfrozen(self, kind, args, replies):
-        self.frames.clear(); self.script[:] = list(replies)
+        self.frames.clear(); self.script[:] = list(replies); self.pending = b""
         try: out = world.show_response(kind, await world.call_op(self.api, kind, args))
         except Exception as e: out = "exc:" + world.exc_name(e)
         return "".join(f + "|" for f in self.frames) + out
